@@ -1090,14 +1090,13 @@ class MultiTestResult(TestResult):
     """A test result that dispatches to many test results."""
 
     def __init__(self, *results):
-        # Setup _results first, as the base class __init__ assigns to failfast.
-        self._results = list(map(ExtendedToOriginalDecorator, results))
-        # That assignment is dispatched to every wrapped result: do not let it
-        # clear a failfast that was configured on them before wrapping.
-        failfasts = [result.failfast for result in self._results]
+        # The base class __init__ assigns to failfast (and so does the
+        # startTestRun it calls).  Such an assignment is dispatched to every
+        # wrapped result, so wrap the results only afterwards: a failfast that
+        # was configured on them - at any depth - must not be overwritten.
+        self._results = []
         super().__init__()
-        for result, failfast in zip(self._results, failfasts):
-            result.failfast = failfast
+        self._results = list(map(ExtendedToOriginalDecorator, results))
 
     def __repr__(self):
         return "<{} ({})>".format(
@@ -1110,6 +1109,8 @@ class MultiTestResult(TestResult):
         )
 
     def _get_failfast(self):
+        if not self._results:
+            return False
         return getattr(self._results[0], "failfast", False)
 
     def _set_failfast(self, value):
@@ -1156,12 +1157,13 @@ class MultiTestResult(TestResult):
         return self._dispatch("addUnexpectedSuccess", test, details=details)
 
     def startTestRun(self):
-        # The base class resets and re-assigns failfast, which is dispatched to
-        # every wrapped result: keep each result's own setting.
-        failfasts = [result.failfast for result in self._results]
-        super().startTestRun()
-        for result, failfast in zip(self._results, failfasts):
-            result.failfast = failfast
+        # The base class resets and re-assigns failfast; keep that bookkeeping
+        # away from the wrapped results (see __init__).
+        results, self._results = self._results, []
+        try:
+            super().startTestRun()
+        finally:
+            self._results = results
         return self._dispatch("startTestRun")
 
     def stopTestRun(self):
